@@ -34,7 +34,7 @@ def spec_entries(ops):
 class C01(Check):
     pid = "C01"
     profiles = ("debug",)
-    rule = ("writer programs of 0..12 entries (thorough: up to 200 and >65535 empty entries): files with contents from "
+    rule = ("writer programs of 0..12 entries (thorough: up to 200; one program of 65,537 empty entries, thorough: five counts around 65,535): files with contents from "
             "{empty, 1 byte, text, incompressible, long runs, 64 KiB+-1, 1 MiB}, names from {ASCII, non-ASCII UTF-8, embedded "
             "NUL/backslash, empty, duplicates, 65535 bytes}, every method x {None, min, max, interior level}, DOS timestamps "
             "over field boundaries, all permission values across the run, large_file, directories, symlinks, comments "
@@ -121,9 +121,9 @@ class C01(Check):
         # one large incompressible write per compressing method (encoders accept such a buffer only partially)
         for m in (8, 12, 93, 0):
             progs.append([("file", b"big%d" % m, Opts(method=m)), ("write", bytes(r.randrange(256) for _ in range(300000 if m != 12 else 1100000)))])
-        if self.tier == "thorough":
-            for cnt in (65534, 65535, 65536, 70000):
-                progs.append([("file", b"e%d" % i, Opts()) for i in range(cnt)])
+        # more entries than the 16-bit count of the end record can hold (ZIP64 end record by count)
+        for cnt in ((65537,) if self.tier == "quick" else (65534, 65535, 65536, 65537, 70000)):
+            progs.append([("file", b"e%d" % i, Opts()) for i in range(cnt)])
         # known finding D22: the last central record ends in bytes that look like a ZIP64 locator (20 bytes in front of
         # the end record): the crate's reader, like CPython's zipfile, takes them for one and cannot open the archive
         progs.append([("file", b"x" + b"PK\x06\x07" + b"0123456789abcdef", Opts()), ("write", b"data")])
@@ -153,17 +153,18 @@ class C01(Check):
             cases.append((lines[j + 1], dict(k="prog", n=len(exp), impl_only=huge)))
             if df is None:
                 continue
-            if len(df) > (4 << 20):
+            if len(df) > ((4 << 20) if not huge else (24 << 20)):
                 continue
             clen = len(com[-1]) if com else 0
             fake = len(df) >= 42 + clen and df[len(df) - 42 - clen:len(df) - 38 - clen] == b"PK\x06\x07" and b"PK\x06\x06" not in df[-200 - clen:]
-            cases.append(("open " + hexs(df), dict(k="open", n=len(exp), comment=(com[-1] if com else b"").hex(), fake_locator=fake)))
-            idxs = range(len(exp)) if len(exp) <= 12 else r.sample(range(len(exp)), 12)
+            cases.append(("open " + hexs(df), dict(k="open", n=len(exp), comment=(com[-1] if com else b"").hex(), fake_locator=fake, impl_only=huge)))
+            idxs = range(len(exp)) if len(exp) <= 12 else r.sample(range(len(exp)), 12 if not huge else 3) + ([len(exp) - 1] if huge else [])
             for i in idxs:
                 e = exp[i]
                 cases.append(("entry %s %d 0 x %d" % (hexs(df), i, r.choice([1, 7, 4096, 65536]) if len(e[1]) <= 3000 else 65536),
                               dict(k="entry", n=len(exp), name=e[0].hex(), content=e[1].hex() if len(e[1]) <= 70000 else None,
-                                   crc=binascii.crc32(e[1]) & 0xffffffff, usize=len(e[1]), method=e[2], date=e[3], time=e[4], mode=e[5], fake_locator=fake)))
+                                   crc=binascii.crc32(e[1]) & 0xffffffff, usize=len(e[1]), method=e[2], date=e[3], time=e[4], mode=e[5], fake_locator=fake,
+                                   impl_only=huge)))
         return cases
 
     def oracle(self, line, meta, out):
